@@ -1,3 +1,4 @@
+import Echse.Model.Evrdat
 import Echse.Model.Sort
 import Echse.Model.Instant
 import Driver.Instant
@@ -21,6 +22,11 @@ def runSort (op : String) (args : List String) : String :=
       let ev := xs.zipIdx
       let r := sortBy (fun (a b : Inst × Nat) => ltP a.1 b.1) ev
       joinWith " " (r.map fun (i, k) => s!"{showInst i}:{k}")
+    else if op == "e.rdat" then
+      -- e.rdat DTSTART d1 d2 … : `__make_evrdat` (below 1024 instants, where the sort is transcribed)
+      match xs with
+      | ds :: rest => if rest.length < 1024 then joinWith " " ((Echse.Evrdat.makeEvrdat ds rest).map showInst) else "unmodelled"
+      | [] => "bad-op"
     else "bad-op"
 
 end Driver
